@@ -13,7 +13,7 @@ class Oracle(BaseOracle):
         p = self.st.proc
         self.stat("checked_transitions")
         base = {"op": ev["op"], "seed": self.st.seed.name, "depth": len(self.st.hist) + 1, "where": findings.where_of(ev, p)}
-        art = {"event": ev, "before": str(p), "after": str(q)}
+        art = {"event": ev, "before": oracles.sstr(p), "after": oracles.sstr(q)}
         # (1) structural well-formedness
         probs = wf.validate(q._loopir_proc)
         if probs:
